@@ -18,3 +18,5 @@ CONSTANTS
   AbortOK = FALSE
 CHECK_DEADLOCK FALSE
 INVARIANT Emit
+INVARIANT EmitChain8
+INVARIANT EmitChain9
